@@ -164,18 +164,23 @@ theorem ascendTo_ok (al : AliasTable) : ∀ (fuel : Nat) (it : Iter) (d : Nat),
     · exact ascendTo_ok al fuel _ d (ascend_ok al it h)
     · exact h
 
+theorem midStep_ok (al : AliasTable) (fixed : Bool) (diffs : List TSRange) (tf : Nat) (s : LoopSt)
+    (ho : StackOK s.o.stack) (hn : StackOK s.n.stack) :
+    StackOK (midStep al fixed diffs tf s).1.stack ∧ StackOK (midStep al fixed diffs tf s).2.1.stack := by
+  have hod := (descend_ok al tf s.o s.position.bytes ho).1
+  have hnd := (descend_ok al tf s.n s.position.bytes hn).1
+  unfold midStep
+  simp only
+  repeat' split
+  all_goals exact ⟨by first | exact ho | exact hod, by first | exact hn | exact hnd⟩
+
 /-- Both cursors keep the stack invariant through one iteration of the walk. -/
 theorem loopBody_ok (al : AliasTable) (fixed : Bool) (diffs : List TSRange) (tf : Nat) (s : LoopSt)
     (ho : StackOK s.o.stack) (hn : StackOK s.n.stack) :
     StackOK (loopBody al fixed diffs tf s).o.stack ∧ StackOK (loopBody al fixed diffs tf s).n.stack := by
-  have hod := (descend_ok al tf s.o s.position.bytes ho).1
-  have hnd := (descend_ok al tf s.n s.position.bytes hn).1
+  have hm := midStep_ok al fixed diffs tf s ho hn
   unfold loopBody
-  simp only
-  repeat' split
-  all_goals
-    exact ⟨ascendTo_ok al _ _ _ (catchUp_ok al tf _ _ _ (by first | exact ho | exact hod)),
-           ascendTo_ok al _ _ _ (catchUp_ok al tf _ _ _ (by first | exact hn | exact hnd))⟩
+  exact ⟨ascendTo_ok al _ _ _ (catchUp_ok al tf _ _ _ hm.1), ascendTo_ok al _ _ _ (catchUp_ok al tf _ _ _ hm.2)⟩
 
 theorem mainLoop_ok (al : AliasTable) (fixed : Bool) (diffs : List TSRange) (tf : Nat) :
     ∀ (fuel : Nat) (s : LoopSt), StackOK s.o.stack → StackOK s.n.stack →
